@@ -316,7 +316,18 @@ func (md *Model) field(path string, f *types.Var, srcN *node, eitherWhy string) 
 		return
 	}
 	below := structOf(ft) != nil && !isPtr(ft) && md.hasNotationBelow(path, ft)
+	n0 := len(md.Out)
 	md.defaultMatch(path, f.Name(), ft, srcN, below)
+	// a notation whose destination differs from this path only in case does NOT name it (":map"/":conv"/
+	// ":literal" compare case-sensitively whatever the case rule): remember the near miss for the judges
+	for _, e := range md.explicit {
+		if e.dst != path && strings.EqualFold(e.dst, path) {
+			for _, ex := range md.Out[n0:] {
+				ex.Notes = append(ex.Notes, "near-miss-notation")
+			}
+			break
+		}
+	}
 }
 
 // cand is a name-match candidate.
